@@ -203,6 +203,22 @@ class Exec:
         self.lits[s] = c
         return c
 
+    def module_names(self):
+        if not hasattr(self, '_modnames'):
+            names = set()
+            for n in self.tree.body:
+                if isinstance(n, (ast.Import, ast.ImportFrom)):
+                    for a in n.names: names.add((a.asname or a.name).split('.')[0])
+                elif isinstance(n, ast.Assign):
+                    for t in n.targets:
+                        if isinstance(t, ast.Name): names.add(t.id)
+                elif isinstance(n, ast.AnnAssign) and isinstance(n.target, ast.Name):
+                    names.add(n.target.id)
+                elif isinstance(n, (ast.FunctionDef, ast.AsyncFunctionDef)):
+                    names.add(n.name)
+            self._modnames = names
+        return self._modnames
+
     # ---- expressions; returns list of (state, value-or-None, exc-or-None)
     def expr(self, e, st, cls, spec=None):
         """spec: dict with 'old' (State), 'result', 'raised' for contract expressions; code otherwise"""
@@ -228,6 +244,10 @@ class Exec:
                 return self.expr(ast.parse(self.consts[e.id], mode='eval').body, st, cls, spec)
             if any(isinstance(n, ast.ClassDef) and n.name == e.id for n in self.tree.body):
                 return R(z3.Const('class!' + e.id, Obj))   # a class object of the module
+            if e.id in self.module_names():
+                # a module-level binding that no contract describes (an imported table, a module constant): an opaque
+                # value, the same one at every use (module bindings are assumed not to be rebound at run time)
+                return R(z3.Const('module!' + e.id, Obj))
             raise ToolError('%s:%d: unknown name %s' % (self.src, getattr(e, 'lineno', 0), e.id))
         if isinstance(e, ast.Attribute):
             if isinstance(e.value, ast.Name) and e.value.id == 'self':
